@@ -181,6 +181,7 @@ class Ctx:
         self.nbranch = 0
         self.covered = set()
         self.imprecise = []       # over-approximations made on this path (a refutation may then be spurious)
+        self.choice_pc = set()    # indices into self.pc of the conditions assumed by choose()/branch() (read by xcheck.py)
 
     def note_bounded(self, what):
         self.bounded = getattr(self, "bounded", [])
@@ -289,7 +290,10 @@ class Ctx:
                 self.alts.append(prefix + [j])
             self.decisions.append(idx)
             self.pos += 1
+        n0 = len(self.pc)
         self.assume(conds[idx])
+        if len(self.pc) > n0:
+            self.choice_pc.add(n0)
         return idx
 
     def branch(self, z, label=""):
